@@ -7,8 +7,12 @@ EXTENDS Snow3g
 
 RECURSIVE CtrInc(_, _)
 CtrInc(b, i) == IF i = 0 THEN b ELSE IF b[i] = 255 THEN CtrInc([b EXCEPT ![i] = 0], i - 1) ELSE [b EXCEPT ![i] = @ + 1]
+\* nb blocks of counter-mode keystream from counter block ctr, in runs of 32 blocks (shallow recursion, see Snow3g!SnowGen)
+RECURSIVE CtrRun(_, _, _)
+CtrRun(ks, ctr, nb) == IF nb = 0 THEN [s |-> <<>>, ctr |-> ctr]
+                       ELSE LET r == CtrRun(ks, CtrInc(ctr, 16), nb - 1) IN [s |-> AesEncKS(ks, ctr) \o r.s, ctr |-> r.ctr]
 RECURSIVE CtrStream(_, _, _)
-CtrStream(ks, ctr, nb) == IF nb = 0 THEN <<>> ELSE AesEncKS(ks, ctr) \o CtrStream(ks, CtrInc(ctr, 16), nb - 1)
+CtrStream(ks, ctr, nb) == IF nb <= 32 THEN CtrRun(ks, ctr, nb).s ELSE LET a == CtrRun(ks, ctr, 32) IN a.s \o CtrStream(ks, a.ctr, nb - 32)
 Eea2(key, count, bearer, dir, msg) ==
    LET ctr == count \o <<bearer * 8 + dir * 4>> \o Zeros(11)
        st == CtrStream(AesKeySchedule(key), ctr, (Len(msg) + 15) \div 16)
